@@ -369,7 +369,9 @@ func formatYear(t time.Time, marker *variableMarker) (string, error) {
 	}
 
 	y := t.Year()
-	if size > 0 {
+	// A year has fewer than 18 digits: a wider field truncates
+	// nothing (and ten to that power does not fit an int).
+	if size > 0 && size < 18 {
 		y = y % pow10(size)
 	}
 
